@@ -56,7 +56,7 @@ def main():
             res["tests"] = rt.stdout.strip().splitlines()[-1] if rt.stdout.strip() else rt.stderr[-200:]
         res["checks"] = {}
         for c in a.checks:
-            rc = sh("VERIF_REPO=%s VERIF_SCRATCH=%s ./check %s --tier %s" % (wt, scratch, c, a.tier), cwd=VERIF)
+            rc = sh("VERIF_REPO=%s VERIF_SCRATCH=%s timeout 1500 ./check %s --tier %s" % (wt, scratch, c, a.tier), cwd=VERIF)
             viol = [l for l in rc.stdout.splitlines() if l.startswith("VIOLATION") or l.startswith("  clause=") or "MACHINERY" in l]
             res["checks"][c] = {"exit": rc.returncode, "lines": viol[:8], "summary": (rc.stdout.strip().splitlines() or [""])[-1][:200]}
     finally:
